@@ -292,7 +292,7 @@ Qed.
 Theorem decode_encode s : decode_block (encode_block s) = (false, s).
 Proof.
   unfold decode_block. destruct (dec_loop_encode s 0 []) as (x' & E & M).
-  rewrite E, M. rewrite app_nil_r, rev_involutive. reflexivity.
+  rewrite E, M. rewrite <- rev_alt, app_nil_r, rev_involutive. reflexivity.
 Qed.
 
 Corollary decode_ok_encode s : decode_ok (encode_block s) = Some s.
@@ -596,7 +596,7 @@ Proof.
   destruct (dec_loop src 0 0 0 []) as [[err x'] out'] eqn:E. cbn [snd].
   assert (H4 : 0 < 4) by lia.
   destruct (dec_loop_bound _ _ _ _ _ _ _ _ H4 E) as [B _]. cbn [length wgt] in B.
-  rewrite rev_length.
+  rewrite <- rev_alt, rev_length.
   assert (0 <= wgt (d_i x')) by lia. lia.
 Qed.
 
@@ -608,7 +608,7 @@ Proof.
   intros Hi. unfold decode_update, decode_length.
   destruct (dec_loop src (d_i x) (d_pad x) (d_cur x) []) as [[err x'] out'] eqn:E. cbn [snd fst].
   destruct (dec_loop_bound _ _ _ _ _ _ _ _ Hi E) as [B B2]. cbn [length] in B.
-  rewrite rev_length. split; [|exact B2].
+  rewrite <- rev_alt, rev_length. split; [|exact B2].
   assert (wgt (d_i x) <= 3) by (assert (d_i x = 0 \/ d_i x = 1 \/ d_i x = 2 \/ d_i x = 3) as Hcase by lia; destruct Hcase as [->|[->|[->| ->]]]; cbn; lia).
   lia.
 Qed.
